@@ -105,7 +105,7 @@ const (
 // the inspector has to cut them out of the stored CREATE TABLE text.
 const (
 	exprE1 = `(a > 0 OR a = 'q')`
-	exprE2 = `(a > 1 AND a <> '\')`
+	exprE2 = `(a > 1 AND a <> '\' AND a <> 'z')`
 )
 
 func ExprText(id string) string {
@@ -150,7 +150,10 @@ func DDL(st State) []string {
 		if len(t.Pk) > 0 && !t.Autoinc {
 			defs = append(defs, "PRIMARY KEY ("+strings.Join(t.Pk, ", ")+")")
 		}
-		for _, k := range t.Chk {
+		// the check whose literal ends in a backslash first, so that more quoted text follows it in the stored CREATE statement
+		chks := append([]Chk{}, t.Chk...)
+		sort.SliceStable(chks, func(i, j int) bool { return chks[i].Expr > chks[j].Expr })
+		for _, k := range chks {
 			if k.Name != "" {
 				defs = append(defs, "CONSTRAINT "+k.Name+" CHECK "+ExprText(k.Expr))
 			} else {
